@@ -17,7 +17,7 @@ STABS = ['stabilization/4.1.3', 'stabilization/4.1.4', 'stabilization/5.1.1',
 HOTFIXES = ['hotfix/4.1.2', 'hotfix/4.0.5', 'hotfix/5.1.0']
 UNIVERSE = DEVS + STABS + HOTFIXES
 TAGS = ['4.1.2', '4.1.3', '4.1.3-rc1', 'v5.1.0', '4.1.2.1', '5.0.1_hf2',
-        '10.0.0', '4.0.5.0', '4.2.0', '5.1.0.3']
+        '10.0.0', '4.0.5.0', '4.2.0', '5.1.0.3', '5.0.0']
 
 
 # ---------------------------------------------------------------------------
@@ -234,7 +234,7 @@ def enum_part(p, part, nparts, tier):
                                       'fix_versions': ref[3]})
         # (2) every discovery order, two tag sets, every destination
         if len(bs) <= max_perm:
-            for ts in ((), ('4.1.2', 'v5.1.0', '10.0.0')):
+            for ts in ((), ('4.1.2', 'v5.1.0', '10.0.0'), ('5.0.0', '4.2.0')):
                 for dst in bs:
                     ref = reference(bs, ts, dst)
                     base = None
